@@ -10,12 +10,57 @@ class Locals(object):
     """Mutable view of a frame's locals for native havoc code: L.x / L.x = v."""
     def __init__(self, frame):
         object.__setattr__(self, "_f", frame)
+        object.__setattr__(self, "_written", set())
 
     def __getattr__(self, k):
         return self._f.locals[k]
 
     def __setattr__(self, k, v):
         self._f.locals[k] = v
+        self._written.add(k)
+
+
+def _names(node, ctxtype):
+    return {n.id for n in ast.walk(node) if isinstance(n, ast.Name) and isinstance(n.ctx, ctxtype)}
+
+
+def loop_carried(st):
+    """Locals that carry a value from one iteration to the next (or out of the loop): assigned in
+    the body and possibly read before being (unconditionally) re-assigned.  Conservative, syntactic."""
+    assigned = set()
+    for n in ast.walk(st):
+        if isinstance(n, ast.Name) and isinstance(n.ctx, (ast.Store, ast.Del)):
+            assigned.add(n.id)
+    definitely = set()
+    if isinstance(st, ast.For):
+        definitely |= _names(st.target, ast.Store)
+    carried = set()
+    if isinstance(st, ast.While):
+        carried |= (_names(st.test, ast.Load) & assigned)
+    for s in st.body:
+        loads = _names(s, ast.Load)
+        if isinstance(s, ast.AugAssign) and isinstance(s.target, ast.Name):
+            loads.add(s.target.id)
+        carried |= {x for x in loads if x in assigned and x not in definitely}
+        if isinstance(s, ast.Assign):
+            for t in s.targets:
+                if isinstance(t, ast.Name):
+                    definitely.add(t.id)
+                elif isinstance(t, (ast.Tuple, ast.List)):
+                    definitely |= {e.id for e in t.elts if isinstance(e, ast.Name)}
+    return carried
+
+
+def frame_check(I, st, frame, L, base, tags):
+    """Every loop-carried local must be re-assigned (havocked) by the loop contract; otherwise the
+    arbitrary-iteration argument would silently fix that variable to its entry value."""
+    missing = sorted(x for x in loop_carried(st) if x not in L._written)
+    if missing:
+        from .engine import Obligation
+        I.ctx.obligations.append(Obligation(base + "/frame", "frame", "failed", 0.0, "syntactic",
+                                            "loop-carried locals not covered by the loop contract: %s" % ", ".join(missing),
+                                            None, I.ctx.path_index, tags))
+        raise PathEnd("frame")
 
     def has(self, k):
         return k in self._f.locals
@@ -81,8 +126,10 @@ def exec_while(I, st, frame):
     oblige_clause(I, frame, inv, clause_env(I, frame), base + "/invariant-established", "invariant", tags)
     pre = Namespace(snapshot(dict(frame.locals)))
     S = Factory(ctx, I)
+    L = Locals(frame)
     if spec.havoc is not None:
-        spec.havoc(S, Locals(frame))
+        spec.havoc(S, L)
+    frame_check(I, st, frame, L, base, tags)
     assume_clause(I, inv, clause_env(I, frame))
     head = Namespace(snapshot(dict(frame.locals)))
     dec = plain_function(spec.decreases) if spec.decreases is not None else None
@@ -135,13 +182,15 @@ def exec_for(I, st, frame):
     if inv is not None:
         oblige_clause(I, frame, inv, clause_env(I, frame), base + "/invariant-established", "invariant", tags)
     S = Factory(ctx, I)
+    L = Locals(frame)
     if spec.havoc is not None:
-        spec.havoc(S, Locals(frame))
+        spec.havoc(S, L)
+    frame_check(I, st, frame, L, base, tags)
     if inv is not None:
         assume_clause(I, inv, clause_env(I, frame))
     if ctx.choose(2) == 0:
         # one arbitrary iteration
-        elem = spec.element(S, Locals(frame)) if spec.element is not None else None
+        elem = spec.element(S, L) if spec.element is not None else None
         head = Namespace(snapshot(dict(frame.locals)))
         pre_elem = snapshot(elem)
         yf = frame
